@@ -12,8 +12,8 @@ THEOREM_STATEMENTS = []
 
 
 def streams(seed, tier):
-    return _hc.build_streams(["ratepair"], seed, tier, 2.0)
+    return _hc.build_streams(["ratepair", "ackflood"], seed, tier, 2.0)
 
 
 def oracle(name, ops, out):
-    return _hc.run_oracles({"*": [crash_oracle, frame_size_oracle], "ratepair": [wire_rate_oracle]}, name, ops, out)
+    return _hc.run_oracles({"*": [crash_oracle, frame_size_oracle], "ratepair": [wire_rate_oracle], "ackflood": [wire_rate_oracle]}, name, ops, out)
